@@ -36,7 +36,7 @@ class InterpBuiltins:
             return SV(self.list_len(v), INT)
         if isinstance(v, (SetV, SymSet, DictV)) or (isinstance(v, ValuesView)):
             chi = self.set_chi(v if not isinstance(v, ValuesView) else v.d)
-            return SV(self.card(chi), INT)
+            return SV(self.card(as_array(chi)), INT)
         if isinstance(v, SV) and v.ty == STR:
             f = z3.Function('str_len', Str, I)
             t = f(v.t)
@@ -269,13 +269,13 @@ class InterpBuiltins:
             if not items:
                 return SymSet(None, ANY)
             ety = self.value_type(items[0])
-            x = z3.Const('x!set', sort_of(ety))
-            return SymSet(z3.Lambda([x], z3.Or([x == self.coerce_term(i, ety) for i in items])), ety)
+            x = self.run.fresh('x!set', sort_of(ety))
+            return SymSet(FnChi(self, x, z3.Or([x == self.coerce_term(i, ety) for i in items])), ety)
         if isinstance(v, (SetV, SymSet)):
             return SymSet(self.set_chi(v), v.ety)
         ety = self.elem_type(v)
-        x = z3.Const('x!set', sort_of(ety))
-        return SymSet(z3.Lambda([x], self.member_term(v, x)), ety)
+        x = self.run.fresh('x!set', sort_of(ety))
+        return SymSet(FnChi(self, x, self.member_term(v, x)), ety)
 
     bi_frozenset = bi_set
 
@@ -641,7 +641,7 @@ class InterpBuiltins:
                 for it in items:
                     row = z3.Store(row, self.coerce_term(it, s.ety), True)
             else:
-                row = z3.Lambda([x], z3.Or(a[s.ref][x], self.member_term(other, x)))
+                row = self.def_array([x], z3.Or(a[s.ref][x], self.member_term(other, x)))
             self.heap.set(nme, z3.Store(a, s.ref, row))
             return None
         if name in ('issubset', 'issuperset', 'isdisjoint'):
